@@ -677,7 +677,10 @@ func New() *FunctionGenerator {
 	fg.AddOpImpl("=", false, equal)
 	fg.AddOp("!=", false, func(st funcGen.Stack[Value], a Value, b Value) (Value, error) {
 		eq, err := equal.Calc(st, a, b)
-		return !(eq.(Bool)), err
+		if err != nil {
+			return nil, err
+		}
+		return !(eq.(Bool)), nil
 	})
 	fg.AddOp("~", false, func(st funcGen.Stack[Value], a Value, b Value) (Value, error) {
 		if list, ok := b.(*List); ok {
@@ -962,6 +965,9 @@ func New() *FunctionGenerator {
 
 	f.AddStaticFunction("min", funcGen.Function[Value]{
 		Func: func(st funcGen.Stack[Value], cs []Value) (Value, error) {
+			if st.Size() == 0 {
+				return nil, errors.New("min requires at least one argument")
+			}
 			var m Value
 			for i := 0; i < st.Size(); i++ {
 				v := st.Get(i)
@@ -984,6 +990,9 @@ func New() *FunctionGenerator {
 	}.SetDescription("a", "b", "Returns the smaller of a and b."))
 	f.AddStaticFunction("max", funcGen.Function[Value]{
 		Func: func(st funcGen.Stack[Value], cs []Value) (Value, error) {
+			if st.Size() == 0 {
+				return nil, errors.New("max requires at least one argument")
+			}
 			var m Value
 			for i := 0; i < st.Size(); i++ {
 				v := st.Get(i)
@@ -1014,6 +1023,9 @@ func randomFunc() func(st funcGen.Stack[Value], cs []Value) (Value, error) {
 		} else if st.Size() == 1 {
 			v := st.Get(0)
 			if n, ok := v.(Int); ok {
+				if n <= 0 {
+					return nil, errors.New("random requires a positive argument")
+				}
 				return Int(rand.Intn(int(n))), nil
 			}
 			return nil, errors.New("random only allowed on int")
